@@ -22,6 +22,7 @@ import (
 	"github.com/go-kid/ioc/container"
 	"github.com/go-kid/ioc/definition"
 	"github.com/go-kid/ioc/syslog"
+	"verifharness/hx"
 )
 
 // ---- scenario description (JSON from the Python generator) ---------------------------------------
@@ -419,10 +420,10 @@ type Result struct {
 	Fields   []FieldObs  `json:"fields"`
 	Lookups  []LookupObs `json:"lookups"`
 	CloseLog []Event     `json:"closelog"`
-	RegNames []string    `json:"regnames"` // GetComponentName of each generated component, by comps index
-	Traced   bool        `json:"traced"`   // the registry tracer could be installed
-	Trace    []TrEv      `json:"trace"`    // registry calls during Run
-	TraceAft []TrEv      `json:"traceaft"` // registry calls during the lookups
+	RegNames []string    `json:"regnames"`        // GetComponentName of each generated component, by comps index
+	Traced   bool        `json:"traced"`          // the registry tracer could be installed
+	Trace    []TrEv      `json:"trace"`           // registry calls during Run
+	TraceAft []TrEv      `json:"traceaft"`        // registry calls during the lookups
 	First    *Result     `json:"first,omitempty"` // the first start, when a second start on the same instances differed from it
 }
 
@@ -430,11 +431,11 @@ type Result struct {
 
 // TrEv is one call on the factory's singleton registry (IsSingletonCurrentlyInCreation is not recorded).
 type TrEv struct {
-	Op string `json:"op"` // g GetSingleton | b creation callback entered | af AddSingletonFactory | eo/ee creation ended ok/with error | as AddSingleton | rm RemoveSingleton
-	N  int    `json:"n"`  // rank of the name, -1 if it is not a registered name
-	E  bool   `json:"e,omitempty"`
-	V  *Token `json:"v,omitempty"` // g: what the early factory returned if it ran without error; eo, as: the version
-	raw any   // the object behind V; resolved to a token once every foreign object (App, built-ins) is known
+	Op  string `json:"op"` // g GetSingleton | b creation callback entered | af AddSingletonFactory | eo/ee creation ended ok/with error | as AddSingleton | rm RemoveSingleton
+	N   int    `json:"n"`  // rank of the name, -1 if it is not a registered name
+	E   bool   `json:"e,omitempty"`
+	V   *Token `json:"v,omitempty"` // g: what the early factory returned if it ran without error; eo, as: the version
+	raw any    // the object behind V; resolved to a token once every foreign object (App, built-ins) is known
 }
 
 type tracer struct {
@@ -810,8 +811,12 @@ func Main() {
 	facts := flag.Bool("facts", false, "print the built-in population and exit")
 	timeout := flag.Duration("case-timeout", 10*time.Second, "per-scenario watchdog")
 	input := flag.String("input", "", "scenario file (JSON)")
+	verbose := flag.Bool("verbose", false, "run the container with a logger that formats every message (debug/trace level)")
 	flag.Parse()
 	syslog.Level(syslog.LvPanic)
+	if *verbose {
+		hx.Verbose()
+	}
 	out := bufio.NewWriter(os.Stdout)
 	emit := func(tag string, v any) {
 		data, _ := json.Marshal(v)
